@@ -927,6 +927,21 @@ def crossoff(ctx, report, rule, facts, config, want=("own-stage", "all-occurrenc
                 own.append("removal also depends on something else than equality with an id of the stage")
             if keep == 1 and equal is True:
                 allocc.append("an entry equal to an id of the stage can be kept")
+            if keep == 1:
+                # a search over the ids may stop early when it has found the entry - not when it decides to keep it: on a
+                # way that keeps the entry every search over the ids of the stage (or over its groups) has run to its end
+                def left_early(events):
+                    for x in events:
+                        if x[0] == "loop" and x[2] is not None:
+                            L2, w = x[1], x[1].iters[x[2]]
+                            about_ids = ids_level(L2) or any(ids_level(L3) == 2 and Q.strip(ev, L3.source) == L2.elem for L3 in loops)
+                            if about_ids and L2.kind in SEARCH and w.end != "done":
+                                return True
+                            if left_early(w.path.events):
+                                return True
+                    return False
+                if left_early(it.path.events):
+                    allocc.append("an entry can be kept before all ids of the stage were compared with it")
     # the ids of the stage are all looked at
     for L in id_loops:
         if L.kind in SEARCH:
